@@ -36,9 +36,15 @@ def run(chk):
     for wi in range(15 if quick else 150):
         wj, sph = any_world(rng)
         seed = rng.choice([0, 1, 2, 1000, rng.randrange(1 << 31)])      # 0 is a legal seed too
+        if wi % 5 == 0:
+            # the seed must arrive unchanged, 0 included: a covering plate with a random composition makes it observable everywhere
+            seed = 0 if wi % 10 == 0 else 1
+            wj["features"].append({"model": "continental plate", "name": "seedwitness", "coordinates": [[-1e7, -1e7], [1e7, -1e7], [1e7, 1e7], [-1e7, 1e7]]
+                                   if not sph else [[-170, -80], [170, -80], [170, 80], [-170, 80]], "max depth": 4e5,
+                                   "composition models": [{"model": "random", "compositions": [3], "min value": [0.0], "max value": [1.0]}]})
         # a random model so that the seed is observable
         for f in wj["features"]:
-            if f["model"] == "continental plate" and rng.random() < 0.7:
+            if f["model"] == "continental plate" and rng.random() < 0.7 and f["name"] != "seedwitness":
                 f.setdefault("composition models", []).append({"model": "random", "compositions": [0], "min value": [0.0], "max value": [1.0]})
         slot = cs.add_world(wj, model=False)        # native, default arguments (placeholder slot numbering)
         path = os.path.join(cs.dir, "w%d.wb" % slot)
@@ -64,6 +70,8 @@ def run(chk):
         dirs.append((od, mode, i1, wj, seed))
         for qi in range(8):
             ps = prop_list(rng, maxlen=5)
+            if wi % 5 == 0:
+                ps = ps + [[2, 3, 0]]
             pt = props_tok(ps)
             if "cross section" in wj and rng.random() < 0.4:
                 pos, d = query2d(rng, wj, sph)
